@@ -370,7 +370,8 @@ func fnGetBit(ctx *cmdContext, args map[string]any) (output respValue, err error
 	keyName := args["key"].(string)
 	bit64 := args["offset"].(int64)
 
-	if bit64 < 0 {
+	// strings are limited to 512 MB, so bits from 2^32 on cannot be addressed
+	if bit64 < 0 || bit64 >= 4*1024*1024*1024 {
 		output.data = respErrorString("ERR bit offset is not an integer or out of range")
 		return
 	}
